@@ -101,16 +101,18 @@ int run_scan(const Args& a) {
     yk::init();
     Rng r(seed);
     std::vector<Universe> us;
-    us.push_back(make_flat());
-    us.push_back(make_layers());
+    std::string only = a.str("scenario", "all");
+    if (only == "all" || only == "flat") { us.push_back(make_flat()); }
+    if (only == "all" || only == "layers") { us.push_back(make_layers()); }
     std::atomic<uint64_t> next_id{1};
     Session main_ses;
     main_ses.reenter();
     for (auto& u : us) {
         yk::create_storage(u.storage);
         for (uint32_t i = 0; i < u.keys.size(); ++i) {
-            // stable third; of the rest about half present initially
-            bool stable = (i % 3 == 0);
+            // stable third, in runs of 8 so that whole borders / whole sub-layers consist of unstable keys only
+            // (they can be emptied, unlinked and retired); of the rest about half present initially
+            bool stable = ((i / 8) % 3 == 0);
             u.stable[i] = stable ? 1 : 0;
             if (stable || r.chance(1, 2)) {
                 uint64_t id = next_id.fetch_add(1);
@@ -167,6 +169,7 @@ int run_scan(const Args& a) {
                         return;
                     }
                     hist[ki].push_back(w);
+                    rep.count(kst[j] == 0 ? "writer_inserts" : "writer_overwrites");
                     kst[j] = w.id;
                     u.cur_len[ki] = len; // only the owner writes this entry
                 };
@@ -181,7 +184,10 @@ int run_scan(const Args& a) {
                         rep.violation("scan:writer-remove-status", "remove by the owning writer returned an unexpected status", JObj().str("got", st(s)).boolean("present", present).str("key", hex(u.keys[ki])).done());
                         return;
                     }
-                    if (present) { hist[ki].push_back(w); }
+                    if (present) {
+                        hist[ki].push_back(w);
+                        rep.count("writer_removes");
+                    }
                     kst[j] = 0;
                 };
                 std::size_t waves = tr.range(1, 4);
@@ -247,6 +253,11 @@ int run_scan(const Args& a) {
                 std::vector<std::pair<std::string, uint64_t>> got; // key, id
                 auto validate = [&](const std::string& k, const char* p, std::size_t len, bool has_len) {
                     uint64_t id = 0;
+                    if (u.index.find(k) == u.index.end()) {
+                        // reported key is not a key that was ever stored: do not interpret the value with it
+                        got.emplace_back(k, 0);
+                        return;
+                    }
                     ValCheck vc = has_len ? check_value(p, len, k, id) : check_value_nolen(p, k, id);
                     if (vc != ValCheck::OK && rec.problem.empty()) {
                         rec.problem = std::string("value:") + valcheck_name(vc);
@@ -305,7 +316,7 @@ int run_scan(const Args& a) {
                     auto it = u.index.find(got[i].first);
                     if (it == u.index.end()) {
                         if (rec.problem.empty()) {
-                            rec.problem = "unknown-key";
+                            rec.problem = "reported-key-was-never-stored";
                             rec.problem_detail = JObj().str("key", hex(got[i].first)).done();
                         }
                         continue;
@@ -345,7 +356,8 @@ int run_scan(const Args& a) {
             for (auto& rec : recs) {
                 rep.eval();
                 rep.count(rec.cursor ? (rec.r2l ? "cursors_backward" : "cursors_forward") : (rec.r2l ? "scans_right_to_left" : (rec.max_size != 0 ? "scans_limited" : "scans_unlimited")));
-                const char* kind = rec.cursor ? "iscan" : "scan";
+                std::string kind_s = rec.cursor ? (u.name == "trie-layers" ? "iscan:trie-layers" : "iscan:single-layer") : "scan";
+                const char* kind = kind_s.c_str();
                 auto base = [&]() {
                     JObj d;
                     d.str("scenario", u.name).str("api", kind).boolean("right_to_left", rec.r2l).num("max_size", rec.max_size).boolean("complete", rec.complete);
